@@ -286,4 +286,169 @@ theorem cache_refined_by_table {hash : Bytes → Nat} {thr : Nat → Nat} (m : L
   · rw [cacheGet_eq, LMap.abs_get h k]
     rfl
 
+/-! ### the table over whole histories -/
+
+/-- a rate-limited call that passes the gate under a positive interval is decided by the table
+    alone, after ANY history: written iff the table does not hold its id, or holds it with a
+    time at least one interval ago -/
+theorem written_iff (cal : Cal) (st0 : St) (ops : List Op) (t : Int) (m : Meth) (id msg i : Bytes)
+    (h0 : st0.cache = [])
+    (hp : m.passes (run cal st0 ops).conf.level = true)
+    (hid : m.rateId id (if m.ln then msg ++ [cNl] else msg) = some i)
+    (hs : (run cal st0 ops).conf.interval > 0)
+    (hclock : (run cal st0 ops).conf.interval * 1000 ≤ t) :
+    let dict := dictAfter [] (puts cal st0 ops)
+    (logDecide t m id msg (run cal st0 ops)).1 = .written ↔
+      AL.get dict i = none ∨ ∃ T, AL.get dict i = some T ∧ T + (run cal st0 ops).conf.interval * 1000 ≤ t := by
+  simp only []
+  have hsup := suppressed_iff cal st0 ops t m id msg h0
+  simp only [] at hsup
+  have hdec : (logDecide t m id msg (run cal st0 ops)).1 = .written ↔ ¬ (logDecide t m id msg (run cal st0 ops)).1 = .rate := by
+    rcases logDecide_cases t m id msg (run cal st0 ops) with ⟨hp', _⟩ | ⟨_, hr, _⟩ | ⟨rid, _, _, _, hd⟩ | ⟨rid, _, _, _, hd⟩
+    · rw [hp] at hp'; cases hp'
+    · rw [hid] at hr; cases hr
+    · rw [hd]; simp
+    · rw [hd]; simp
+  rw [hdec, hsup]
+  constructor
+  · intro hn
+    cases hg : AL.get (dictAfter [] (puts cal st0 ops)) i with
+    | none => left; rfl
+    | some T =>
+      right
+      refine ⟨T, rfl, ?_⟩
+      have : ¬ t < T + (run cal st0 ops).conf.interval * 1000 := by
+        intro hlt
+        exact hn ⟨hp, i, hid, hs, by rw [hg]; exact hlt⟩
+      omega
+  · rintro (hnone | ⟨T, hT, hle⟩) ⟨_, j, hj, _, hlt⟩
+    · rw [hid] at hj; injection hj with hj; subst hj
+      rw [hnone] at hlt
+      simp only [Option.getD_none] at hlt
+      omega
+    · rw [hid] at hj; injection hj with hj; subst hj
+      rw [hT] at hlt
+      simp only [Option.getD_some] at hlt
+      omega
+
+/-- closed form (C09's `foldl_put_keepLast`): when the `Put`s carry pairwise distinct new
+    non-empty ids, the table afterwards holds exactly the most recent 1000 entries -/
+theorem table_after_new_ids (c : Cache) (l : List (Bytes × Int)) (hn : (AL.keys (c ++ l)).Nodup)
+    (hne : ∀ e ∈ l, e.1 ≠ []) (hb : c.length ≤ cacheMax) :
+    dictAfter c l = AL.keepLast cacheMax (c ++ l) := by
+  have hnc : (AL.keys c).Nodup := by
+    rw [S.keys_append] at hn
+    exact (List.nodup_append.mp hn).1
+  rw [(dictAfter_is_hmap l c hnc).1]
+  rw [S.foldl_put_keepLast slDesc l c cacheMax hn (fun e he => by simp [slDesc, hne e he]) (Or.inr hb)]
+
+/-- hence: after 1000 or more new ids everything the table held before is forgotten -/
+theorem ids_forgotten (c : Cache) (l : List (Bytes × Int)) (hn : (AL.keys (c ++ l)).Nodup)
+    (hne : ∀ e ∈ l, e.1 ≠ []) (hb : c.length ≤ cacheMax) (hl : cacheMax ≤ l.length) (k : Bytes) (hk : k ∈ AL.keys c) :
+    AL.get (dictAfter c l) k = none := by
+  rw [table_after_new_ids c l hn hne hb]
+  apply AL.get_none_iff.mpr
+  unfold AL.keepLast
+  have hmax : 0 < cacheMax := by decide
+  by_cases hlt : cacheMax < (c ++ l).length
+  · rw [if_pos ⟨hmax, hlt⟩]
+    have hd : (c ++ l).length - cacheMax = c.length + (l.length - cacheMax) := by
+      simp only [List.length_append]; omega
+    rw [hd, ← List.drop_drop, List.drop_left]
+    intro hmem
+    have hsub : (AL.keys (l.drop (l.length - cacheMax))).Sublist (AL.keys l) := (List.drop_sublist _ _).map _
+    have hkl : k ∈ AL.keys l := hsub.subset hmem
+    rw [S.keys_append, List.nodup_append] at hn
+    exact hn.2.2 k hk k hkl rfl
+  · -- then c is empty
+    have : c.length = 0 := by simp only [List.length_append] at hlt; omega
+    have hc : c = [] := List.length_eq_zero_iff.mp this
+    rw [hc] at hk
+    cases hk
+
+/-- … and not earlier than that: an id with `y` younger entries behind it survives any further
+    `Put`s of other ids as long as `y` + their number stays below the capacity -/
+theorem id_survives (pre young : Cache) (i : Bytes) (v : Int) (ps : List (Bytes × Int))
+    (hn : (AL.keys (pre ++ (i, v) :: young)).Nodup) (hi : i ≠ [])
+    (hps : ∀ e ∈ ps, e.1 ≠ i) (hlen : (pre ++ (i, v) :: young).length ≤ cacheMax)
+    (hroom : young.length + ps.length < cacheMax) :
+    AL.get (dictAfter (pre ++ (i, v) :: young) ps) i = some v := by
+  induction ps generalizing pre young with
+  | nil =>
+    simp only [dictAfter, List.foldl_nil]
+    rw [AL.get_append]
+    have : AL.get pre i = none := by
+      apply AL.get_none_iff.mpr
+      intro hm
+      rw [S.keys_append, List.nodup_append] at hn
+      exact hn.2.2 i hm i (by simp [AL.keys]) rfl
+    simp [this, AL.get]
+  | cons e r ih =>
+    obtain ⟨k, w⟩ := e
+    have hki : k ≠ i := hps (k, w) (by simp)
+    have hr : ∀ e ∈ r, e.1 ≠ i := fun e he => hps e (by simp [he])
+    simp only [List.length_cons] at hroom
+    simp only [dictAfter, List.foldl_cons]
+    change AL.get (dictAfter (cachePut (pre ++ (i, v) :: young) k w) r) i = some v
+    by_cases hk0 : k = []
+    · have : cachePut (pre ++ (i, v) :: young) k w = pre ++ (i, v) :: young := by simp [cachePut, hk0]
+      rw [this]
+      exact ih pre young hn hr hlen (by omega)
+    · by_cases hmem : k ∈ AL.keys (pre ++ (i, v) :: young)
+      · -- known id: value replaced in place
+        rw [put_known w hn hmem hk0]
+        have hset : AL.set (pre ++ (i, v) :: young) k w = AL.set pre k w ++ (i, v) :: AL.set young k w := by
+          have : ¬ i = k := fun e => hki e.symm
+          simp [AL.set, this]
+        rw [hset]
+        refine ih _ _ ?_ hr ?_ ?_
+        · have := AL.keys_set (pre ++ (i, v) :: young) k w
+          rw [hset] at this
+          rw [this]; exact hn
+        · simpa using hlen
+        · rw [AL.length_set]; omega
+      · by_cases hfull : (pre ++ (i, v) :: young).length = cacheMax
+        · -- at capacity: the eldest goes; it is not `i` because something older than `i` exists
+          rw [put_new_full w hmem hk0 hfull]
+          cases pre with
+          | nil =>
+            simp only [List.nil_append, List.length_cons] at hfull
+            omega
+          | cons p pre' =>
+            have : List.drop 1 (p :: pre' ++ (i, v) :: young) ++ [(k, w)] = pre' ++ (i, v) :: (young ++ [(k, w)]) := by simp
+            rw [this]
+            refine ih _ _ ?_ hr ?_ ?_
+            · have hsub : (AL.keys (pre' ++ (i, v) :: young)).Sublist (AL.keys (p :: pre' ++ (i, v) :: young)) :=
+                (List.sublist_cons_self _ _).map _
+              have hn' := List.Nodup.sublist hsub hn
+              have e1 : pre' ++ (i, v) :: (young ++ [(k, w)]) = (pre' ++ (i, v) :: young) ++ [(k, w)] := by simp
+              rw [e1, S.keys_append, List.nodup_append]
+              refine ⟨hn', by simp [AL.keys], ?_⟩
+              intro a ha b hb
+              simp [AL.keys] at hb
+              subst hb
+              intro hab; subst hab
+              exact hmem (hsub.subset ha)
+            · simp at hfull ⊢
+              omega
+            · simp
+              omega
+        · have hlt : (pre ++ (i, v) :: young).length < cacheMax := by omega
+          rw [put_new_below w hmem hk0 hlt]
+          have : pre ++ (i, v) :: young ++ [(k, w)] = pre ++ (i, v) :: (young ++ [(k, w)]) := by simp
+          rw [this]
+          refine ih _ _ ?_ hr ?_ ?_
+          · have e1 : pre ++ (i, v) :: (young ++ [(k, w)]) = (pre ++ (i, v) :: young) ++ [(k, w)] := by simp
+            rw [e1, S.keys_append, List.nodup_append]
+            refine ⟨hn, by simp [AL.keys], ?_⟩
+            intro a ha b hb
+            simp [AL.keys] at hb
+            subst hb
+            intro hab; subst hab
+            exact hmem ha
+          · simp only [List.length_append, List.length_cons, List.length_nil] at hlt ⊢
+            omega
+          · simp only [List.length_append, List.length_cons, List.length_nil]
+            omega
+
 end Logger
